@@ -87,7 +87,8 @@ Begin(k, t) ==
     /\ committed[k]
     /\ running' = [running EXCEPT ![k] = TRUE] /\ committed' = [committed EXCEPT ![k] = FALSE]
     /\ begins' = [begins EXCEPT ![k] = @ + 1]
-    /\ pend' = [pend EXCEPT ![k] = "none"]                  \* this run comes after every submission so far
+    \* this run comes after every submission so far - except a schedule entry whose time has not come yet
+    /\ pend' = [pend EXCEPT ![k] = IF @ = "sched" /\ schedAt[k] > t + EarlyMs THEN "sched" ELSE "none"]
     /\ UNCHANGED <<n, ordered, subs, cancelled, schedAt, prioQ, normQ, holder, mdMs, qsubT, lastKind>>
 
 End(k) ==
